@@ -3,10 +3,12 @@ from vlib import gen_tree
 from vlib.scn import Scenario, h, unh
 from checks import trees
 from checks.outparse import parse_raws
+from gen import extract_facts
+generate_facts = extract_facts.generate
 
 ID = "C16"
-LEAN_MODULES = ["Econf.Props.C16"]
-THEOREMS = ["Econf.C16_gate", "Econf.C16_refused", "Econf.C16_reset", "Econf.C16_all_pass_history", "Econf.C16_all_pass_file", "Econf.C16_first_refused"]
+LEAN_MODULES = ["Econf.Props.C16", "Econf.Props.Tie"]
+THEOREMS = ["Econf.C16_gate", "Econf.C16_refused", "Econf.C16_reset", "Econf.C16_all_pass_history", "Econf.C16_all_pass_file", "Econf.C16_first_refused", "Econf.Struct.tie_gate_codes"]
 SHRINK = False
 RULE = ("small trees x every consulted file assigned {matching, foreign} owner and group and {regular, symbolic link} at random x every "
         "subset of {required owner, required group, no symlinks} x read entry points (single file, layered, two-directory, history); "
